@@ -55,6 +55,17 @@ def collision_programs(tier):
             {},
         )
     )
+    # fixed overlapping poses, only the collision flags are random: whether the pair may overlap
+    # must be decided afresh for every sample (history of earlier samples explored completely)
+    for pos, dims in (("(0.5, 0, 0)", "1"), ("(0, 0, 0)", "0.4")):
+        progs.append(
+            (
+                f"collide:fixed-overlap-random-flags:{dims}",
+                "ego = new Object at (0, 0, 0), with width 1, with length 1, with height 1, with allowCollisions Uniform(False, True)\n"
+                f"b = new Object at {pos}, with width {dims}, with length {dims}, with height {dims}, with allowCollisions Uniform(False, True)\n",
+                {"explore_history": True},
+            )
+        )
     # a convex object wholly inside the solid material of a non-convex mesh object (no surface contact)
     progs.append(
         (
@@ -276,7 +287,11 @@ def check_program(item):
                 _random.seed(h)
                 _np.random.seed(h)
                 try:
-                    scene, its = scenario._generateInner(4, 0, None)
+                    if meta.get("explore_history"):
+                        with seams.rng_seam():
+                            scene, its = scenario._generateInner(1, 0, None)
+                    else:
+                        scene, its = scenario._generateInner(4, 0, None)
                     results.append((scene, [r.active for r in scenario.userRequirements]))
                 except RejectionException:
                     results.append(None)
